@@ -1441,8 +1441,17 @@ func (ev *Event) CreatedAtTime() time.Time {
 	if ev == nil {
 		return time.Unix(0, 0)
 	}
+	// time.Unix wraps around for seconds beyond what time.Time can represent: a created_at near
+	// the top of the int64 range would otherwise look like a time in the distant past
+	if ev.CreatedAt > maxCreatedAtTimeUnix {
+		return time.Unix(maxCreatedAtTimeUnix, 0)
+	}
 	return time.Unix(ev.CreatedAt, 0)
 }
+
+// maxCreatedAtTimeUnix is the largest Unix time in seconds that time.Unix converts without
+// overflow (the seconds between year 1 and 1970 are added internally).
+const maxCreatedAtTimeUnix = 1<<63 - 1 - 62135596800
 
 func (ev *Event) Address() string {
 	if ev == nil {
